@@ -24,7 +24,8 @@ ID = "C15"
 LEVEL = "exploration"
 TECHNIQUE = "property-based testing (Hypothesis): generated run-splitting histories compared with a counting model of the observer schedule and, differentially, with the unsplit run"
 RULE = (
-    "case = (driver, seed, n<=14, segments summing to n incl. zero-length, entry point per segment, observer intervals from {1,2,3,5,-1,-3,-n,-(n+2)}); "
+    "case = (driver out of six, seed, n<=14, segments summing to n incl. zero-length, entry point per segment, observer intervals from {1,2,3,5,-1,-3,-n,-(n+2)}, default logger / trajectory present or not, "
+    "consecutive irun generators created before either is exhausted); "
     "non-trivial = at least two segments using different entry points and an observer with |interval|>1; "
     "distinct = (driver, segment lengths, entry points, intervals)."
 )
